@@ -85,6 +85,46 @@ def be32(x):
     return [x >> 24 & 255, x >> 16 & 255, x >> 8 & 255, x & 255]
 
 
+# fragmentation patterns: cut positions inside the 10 header bytes; two pieces (9), three pieces (36),
+# and a few with more pieces (up to one byte per Read)
+PATS2 = [str(i) for i in range(1, 10)]
+PATS3 = ["%d+%d" % (i, j) for i in range(1, 10) for j in range(i + 1, 10)]
+PATSN = ["1+2+3+4+5+6+7+8+9", "2+4+6+8", "1+9", "3+6+9", "1+2+3", "5+6+7+8+9"]
+ALL_PATS = PATS2 + PATS3 + PATSN
+
+
+def frg_line(w, lens, ids, pats):
+    return "frg %d %s %s %s" % (w, csv(lens), csv(ids), ",".join(pats))
+
+
+def gen_frag_requests(tier, seed):
+    """every header of the dec sweep (same first-two-bytes x lengths x ids grid) delivered to
+    readHeader in pieces.  Per first-two-bytes value a rotating selection of cut patterns (so that
+    every pattern meets every region of the grid), and all patterns on a stride of the values."""
+    rnd = random.Random(seed ^ 0xF4A6)
+    thorough = tier == "thorough"
+    n2, n3, stride = (5, 9, 8) if thorough else (3, 4, 32)
+    reqs = []
+    for w in range(1 << 16):
+        ids = dedup(FIXED_IDS + [rnd.getrandbits(32)])
+        if w % stride == 0:
+            pats = ALL_PATS
+        else:
+            pats = [PATS2[(w + k * 3) % 9] for k in range(n2)] + [PATS3[(w * n3 + k) % 36] for k in range(n3)] \
+                   + [PATSN[w % len(PATSN)]]
+        reqs.append(frg_line(w, DEC_LENS, ids, dedup(pats)))
+    # streams that are not exactly one header: too short (EOF inside the header), longer (only 10 consumed)
+    good = [0x04, 0x3e, 0, 0, 0, 10, 1, 2, 3, 4]
+    streams = [good[:n] for n in range(0, 10)] + [good + [rnd.getrandbits(8) for _ in range(k)] for k in (1, 2, 6, 10, 22)]
+    streams += [[0xff, 0xff, 0, 0, 0, 9, 0, 0, 0, 0], [0xe4, 0x3e, 0x80, 0, 0, 10, 0xff, 0xfe, 0xfd, 0xfc]]
+    streams += [[rnd.getrandbits(8) for _ in range(rnd.choice([10, 10, 10, 20, 13, 7]))] for _ in range(200 if thorough else 40)]
+    for st in streams:
+        reqs.append("rfg %s %s" % (bytes(st).hex() or "-", ",".join(ALL_PATS)))
+    for st in streams[:60 if thorough else 24]:
+        reqs.append("pip %s %s" % (bytes(st).hex() or "-", ",".join(ALL_PATS)))
+    return reqs
+
+
 def gen_requests(tier, seed):
     rnd = random.Random(seed)
     thorough = tier == "thorough"
@@ -138,6 +178,13 @@ def expand(req):
                 for l in map(int, f[2].split(",")) for i in map(int, f[3].split(","))]
     if f[0] == "raw":
         return [dict(kind="dec", bytes=list(bytes.fromhex("" if f[1] == "-" else f[1])))]
+    if f[0] == "frg":
+        w = int(f[1])
+        return [dict(kind="rfg", via="rfg", bytes=[w >> 8, w & 255] + be32(l) + be32(i), pats=f[4].split(","), consumed=False)
+                for l in map(int, f[2].split(",")) for i in map(int, f[3].split(","))]
+    if f[0] in ("rfg", "pip"):
+        return [dict(kind="rfg", via=f[0], bytes=list(bytes.fromhex("" if f[1] == "-" else f[1])), pats=f[2].split(","),
+                     consumed=f[0] == "rfg")]
     if f[0] == "enc":
         return [dict(kind="enc", ver=int(f[1]), typ=int(f[2]), len=l, id=i)
                 for l in map(int, f[3].split(",")) for i in map(int, f[4].split(","))]
@@ -145,6 +192,8 @@ def expand(req):
 
 
 def single_request(case):
+    if case["kind"] == "rfg":
+        return "%s %s %s" % (case["via"], bytes(case["bytes"]).hex() or "-", ",".join(case["pats"]))
     if case["kind"] == "dec":
         return "raw " + (bytes(case["bytes"]).hex() or "-")
     return enc_line(case["ver"], case["typ"], [case["len"]], [case["id"]])
@@ -153,6 +202,28 @@ def single_request(case):
 def judge_case(case, g, o):
     """Go token g differs from model token o for this case: is the property violated by Go's
     behaviour?  returns (signature, what, found_input)"""
+    if case["kind"] == "rfg":
+        # the header a fragmented stream decodes to must be the one its first 10 bytes spell,
+        # whatever the fragmentation; exactly min(10, len) bytes are taken from the stream
+        bs, pats = case["bytes"], case["pats"]
+        want = spec_decode(bs[:10])
+        if case["consumed"]:
+            want += "@%d" % min(10, len(bs))
+        got = g.split("/")
+        if len(got) == 1:
+            got = got * len(pats)
+        hexs = bytes(bs).hex() or "(empty)"
+        for pat, a in zip(pats, got):
+            if a != want:
+                cuts = [0] + [min(int(c), len(bs)) for c in pat.split("+")] + [len(bs)]
+                pieces = " | ".join(bytes(bs[x:y]).hex() for x, y in zip(cuts, cuts[1:]))
+                case["pats"] = [pat]
+                return ("fragmented-header:readHeader",
+                        "readHeader over a transport that delivers the stream %s in pieces [%s] (%s) returns %s; "
+                        "delivered in one piece the same bytes give %s" % (
+                            hexs, pieces, "net.Pipe, one Write per piece" if case["via"] == "pip" else "one piece per Read", a, want), True)
+        return ("model-mismatch:fragmented", "Go's readHeader on the fragmented stream %s behaves as the property demands (%s) "
+                "but the Coq model answers %s" % (hexs, g, o), False)
     if case["kind"] == "dec":
         bs = case["bytes"]
         want = spec_decode(bs)
@@ -374,6 +445,7 @@ def run(tier, seed, replay=None):
         "encoding/binary.BigEndian Uint16/Uint32/PutUint16/PutUint32 as in their source (lor of shifted bytes / byte(v>>k)); io.ReadFull delivers exactly 10 bytes or an error",
         "spec/llrp_pairs.json = Coq llrp_pairs (proved equal each run): the pinned LLRP 1.1 list of requests that have a response (19 X / X_RESPONSE pairs); KEEPALIVE/KEEPALIVE_ACK and CUSTOM_MESSAGE are allowed but not demanded",
         "the table dump is produced by the harness from the running code (IsValid, Converse, NewInstance().Type(), isResponseTo for all 1024 codes); the text of generated Coq files is written by checks/c19.py",
+        "fragmented delivery: a net.Conn whose Read returns at most the rest of the current piece (io.Reader contract; empty pieces are skipped on the Go side), modelled by read_full over a list of chunks; net.Pipe hands each Write to separate Reads",
         "the Header version field (uint8) is not refused by the encoder when above 7; the property does not demand it (Example C19_note_version_unchecked)",
     ]
     pr = vlib.proof_part(res, PID)
@@ -398,17 +470,37 @@ def run(tier, seed, replay=None):
     if do_tables and stats is None:
         return res.finish()
     if reqs is None:
-        reqs = gen_requests(tier, seed)
+        reqs = gen_requests(tier, seed) + gen_frag_requests(tier, seed)
 
-    evals = nontriv = 0
+    evals = nontriv = frag_headers = 0
     dist, samples = {}, []
     if reqs:
         text = "\n".join(reqs) + "\n"
-        rc, go_lines, glog = vlib.run_harness(exe, "TestVerifC19", text, timeout=900)
-        orc, oout = vlib.run_oracle("c19", text, timeout=900)
-        olines = oout.split("\n")
-        if olines and olines[-1] == "":
-            olines.pop()
+        # the request list is cut into contiguous parts that are answered by several harness and
+        # oracle processes at once (both are pure line-by-line functions); answers are re-joined in order
+        import threading
+        nparts = 1 if len(reqs) < 2000 else 4
+        step = (len(reqs) + nparts - 1) // nparts
+        parts = ["\n".join(reqs[k:k + step]) + "\n" for k in range(0, len(reqs), step)]
+        gbox, obox = {}, {}
+        ths = []
+        for k, part in enumerate(parts):
+            ths.append(threading.Thread(target=lambda k=k, part=part: obox.__setitem__(k, vlib.run_oracle("c19", part, timeout=900))))
+            ths.append(threading.Thread(target=lambda k=k, part=part: gbox.__setitem__(
+                k, vlib.run_harness(exe, "TestVerifC19", part, timeout=900, tag="_p%d" % k))))
+        for th in ths:
+            th.start()
+        for th in ths:
+            th.join()
+        rc, go_lines, glog, orc, olines, oout = 0, [], "", 0, [], ""
+        for k in range(len(parts)):
+            r, lines, log = gbox.get(k, (1, [], "harness thread failed"))
+            rc, go_lines, glog = rc or r, go_lines + lines, glog + log[-1500:]
+            r, out = obox.get(k, (1, "oracle thread failed"))
+            ol = out.split("\n")
+            if ol and ol[-1] == "":
+                ol.pop()
+            orc, olines, oout = orc or r, olines + ol, out
         if rc != 0 or len(go_lines) != len(reqs):
             res.violation("harness-run", "Go harness failed (rc=%s, %d/%d answers): %s" % (rc, len(go_lines), len(reqs), glog[-1500:]),
                           dict(kind="harness", log=glog[-3000:]), False)
@@ -417,27 +509,40 @@ def run(tier, seed, replay=None):
             res.violation("oracle-run", "oracle failed (rc=%s, %d/%d answers): %s" % (orc, len(olines), len(reqs), oout[-500:]),
                           dict(kind="oracle"), False)
             return res.finish()
-        seen_sig, genuine, unexplained = set(), [], []
+        seen_sig, genuine, unexplained, mismatching = set(), [], [], {}
         for req, g, o in zip(reqs, go_lines, olines):
             kind = req[:3]
             ntok = g.count(" ") + 1
-            evals += ntok
-            dist[kind] = dist.get(kind, 0) + ntok
-            # non-trivial: the header is accepted by the implementation (not "E")
-            nontriv += ntok - (g.count("E|") if kind != "enc" else len(re.findall(r"(?:^| )E", g)))
-            if len(samples) < 8 and (req.startswith(("dec 1086 ", "dec 65535 ", "enc 1 62 ", "enc 7 950 ")) or req.startswith(("raw 043e0000000a0102030", "raw ffff00000009"))):
+            if kind in ("frg", "rfg", "pip"):
+                # one evaluation per (header, fragmentation pattern)
+                npat = req.rsplit(" ", 1)[1].count(",") + 1
+                rej = len(re.findall(r"(?:^| )E", g))
+                evals += ntok * npat
+                dist[kind] = dist.get(kind, 0) + ntok * npat
+                nontriv += (ntok - rej) * npat
+                frag_headers += ntok
+            else:
+                evals += ntok
+                dist[kind] = dist.get(kind, 0) + ntok
+                # non-trivial: the header is accepted by the implementation (not "E")
+                nontriv += ntok - (g.count("E|") if kind != "enc" else len(re.findall(r"(?:^| )E", g)))
+            if len(samples) < 11 and (req.startswith(("dec 1086 ", "dec 65535 ", "enc 1 62 ", "enc 7 950 ")) or req.startswith(("raw 043e0000000a0102030", "raw ffff00000009", "frg 1086 ", "rfg 043e0000000a01020304 ", "pip 043e0000 "))):
                 samples.append(dict(request=req, go=g[:260], model=o[:260]))
             if g == o:
                 continue
+            mismatching[kind] = mismatching.get(kind, 0) + 1
+            if mismatching[kind] > 1500:
+                continue        # enough witnesses of this kind examined; the count is reported
             cases = expand(req)
             gt, ot = g.split(" "), o.split(" ")
             if len(gt) != len(cases) or len(ot) != len(cases):
                 res.violation("harness-format", "answer shape differs for request %r: go %r model %r" % (req, g[:200], o[:200]),
                               dict(kind="header", requests=[req]), False)
                 continue
-            for case, a, b in zip(cases, gt, ot):
-                if a == b:
-                    continue
+            diffs = [(case, a, b) for case, a, b in zip(cases, gt, ot) if a != b]
+            # prefer a witness whose header is a valid one (more telling than a rejected one)
+            diffs.sort(key=lambda d: d[0]["kind"] == "rfg" and spec_decode(d[0]["bytes"][:10]) == "E")
+            for case, a, b in diffs:
                 sig, what, found = judge_case(case, a, b)
                 if sig in seen_sig:
                     continue
@@ -449,6 +554,8 @@ def run(tier, seed, replay=None):
         # why model and code have come apart
         for v in genuine or unexplained:
             res.violation(*v)
+        if mismatching:
+            res.coverage["request_lines_where_code_and_model_differ"] = mismatching
 
     if stats:
         res.coverage["obligations"] = res.coverage.get("obligations", 0) + stats["gen_obligations"]
@@ -470,10 +577,13 @@ def run(tier, seed, replay=None):
         evaluations=evals, distinct_nontrivial=nontriv,
         rule="header cases = every value 0..65535 of the first two bytes x declared lengths %s x ids {0,1,2^31,2^32-1,random} "
              "(through UnmarshalBinary and readHeader), buffers of other sizes, and Header values version x type 0..1023(+out of range) x "
-             "payload lengths %s x ids (through MarshalBinary, WriteTo, writeHeader); table cases = the 1024 type codes. "
+             "payload lengths %s x ids (through MarshalBinary, WriteTo, writeHeader); fragmented delivery = every header of that grid handed to "
+             "readHeader in pieces (frg: rotating selection of the 9 two-piece, 36 three-piece and 6 many-piece cut patterns per first-two-bytes "
+             "value, all 51 on a stride; rfg/pip: short, exact and long streams under all 51 patterns, pip over net.Pipe with a read timeout), one "
+             "evaluation per (header, pattern); table cases = the 1024 type codes. "
              "All cases of a run are distinct by construction (lists de-duplicated). Non-trivial: a header case that the implementation "
              "accepts (answer is not E), a table code that can be instantiated; counted from the Go answers." % (DEC_LENS, ENC_LENS),
         samples=samples, input_distribution=dist, traces_validated_against_impl=evals,
-        trusted_base=res.assumptions, exhaustive=full,
+        trusted_base=res.assumptions, exhaustive=full, fragmented_headers=frag_headers, fragmentation_patterns=len(ALL_PATS),
         exhaustive_over="first two header bytes (2^16) x the boundary length/id grid; versions 0..7 x types 0..1023 for encoding; all 1024 type codes" if full else "replay only")
     return res.finish()
